@@ -100,7 +100,9 @@ def container_ids(x, acc=None, depth=0):
         for y in x:
             container_ids(y, acc, depth + 1)
     elif isinstance(x, FSA):
-        for y in vars(x).values():
+        # only what the public API hands out (the three view properties and the start list): whether two automata share
+        # internal, never exposed structure is their own business
+        for y in (x.graph_dict, x.out_dict, x.in_dict, x.start_vertices):
             container_ids(y, acc, depth + 1)
     return acc
 
@@ -126,9 +128,10 @@ def lang_snapshot(A, vs, ls, wmax=2, nmax=2):
     """every query family of C10 as plain data"""
     out = {}
     starts = list(A.start_vertices)
+    verts = set(A.vertices())
     for sv in [None] + list(vs)[:2]:
-        if sv is None and not starts:
-            continue
+        if (sv is None and (not starts or starts[0] not in verts)) or (sv is not None and sv not in verts):
+            continue            # queries from something that is not a state are outside the contract
         for w in words_upto(ls, wmax):
             pw = "".join(w)
             try:
@@ -144,7 +147,7 @@ def lang_snapshot(A, vs, ls, wmax=2, nmax=2):
                                           sorted(U.capped(A.enumerate_words(n, start_vertex=sv))))
             except KeyError:
                 out[("e", repr(sv), n)] = "KeyError"
-    if starts:
+    if starts and starts[0] in verts:
         for w in words_upto(ls, wmax):
             pw = "".join(w)
             try:
@@ -157,7 +160,7 @@ def lang_snapshot(A, vs, ls, wmax=2, nmax=2):
 def lang_reference(ref, starts, vs, ls, wmax=2, nmax=2):
     out = {}
     for sv in [None] + list(vs)[:2]:
-        if sv is None and not starts:
+        if (sv is None and (not starts or starts[0] not in ref.V)) or (sv is not None and sv not in ref.V):
             continue
         s0 = starts[0] if sv is None else sv
         for w in words_upto(ls, wmax):
@@ -173,7 +176,7 @@ def lang_reference(ref, starts, vs, ls, wmax=2, nmax=2):
             lv = [("".join(w), e) for w, e in ref.lang(s0, n)]
             tot += [w for w, _ in lv]
             out[("e", repr(sv), n)] = (sorted(repr((w, e)) for w, e in lv), sorted(tot))
-    if starts:
+    if starts and starts[0] in ref.V:
         s0 = starts[0]
         for w in words_upto(ls, wmax):
             pw = "".join(w)
